@@ -154,7 +154,8 @@ class Scheduler:
         preempted before it (coarser interleavings: the step is recorded with that
         thread as the only candidate).  `script`: instead of `schedule`, a list of
         (tid, n) = n steps of tid | (tid, kind) = run tid until it has performed an
-        event of that kind | (tid, "end") = until it finishes."""
+        event of that kind | (tid, "end") = until it finishes; a third element "opt" makes the
+        item optional: it is skipped when the thread is not enabled at that moment."""
         n = len(self._bodies)
         self._go = [threading.Semaphore(0) for _ in range(n)]
         self._threads = [threading.Thread(target=self._worker, args=(t,), daemon=True) for t in range(n)]
@@ -171,7 +172,9 @@ class Scheduler:
                 en = self.enabled()
                 cands = None
                 if todo is not None:
-                    while todo and (todo[0][0] in self._finished or todo[0][1] == 0):
+                    # drop items that are done, and optional items ([tid, what, "opt"]) whose thread cannot run now
+                    while todo and (todo[0][0] in self._finished or todo[0][1] == 0
+                                    or (len(todo[0]) > 2 and todo[0][0] not in en)):
                         todo.pop(0)
                 if todo:
                     t = todo[0][0]
